@@ -37,7 +37,11 @@ RULE = ("cases = (valid MNTM with 1–3 tapes, deterministic or not, input, "
         "number n of next() calls); corpus (F9: left move from the leftmost cell; F11: empty transition list; "
         "right moves past the end; all three directions on every tape), bounded-exhaustive tiny machines "
         "(1 tape: all tables with ≤2 rows over 2 states + final and {0,#}; 2 tapes: all one-row tables over "
-        "{0,#}), then shaped random machines — all of these with tape alphabets and inputs without '^' and '_' — "
+        "{0,#}), then shaped random machines, machines whose state names have MIXED mutually unorderable types (ints, "
+        "strs, tuples, frozensets in one machine; nondeterministic with dead ends, so rejected inputs leave several "
+        "branches stuck in differently-typed states), and machines built under allow_mutable_automata=True from plain "
+        "dict/list/set containers (transition results stay lists; option on or off again during the runs; judged on a "
+        "frozen twin = the definition as built) — all of these with tape alphabets and inputs without '^' and '_' — "
         "and the family mark_alphabets (4 fixed probes + random machines over 9 tape alphabets containing '^' / "
         "'_' and/or inputs containing them: the open finding C17:mark-symbol-in-alphabet-or-input); a case is "
         "non-trivial when the simulation yields ≥3 configurations; distinct = distinct (definition, input, n)")
@@ -84,12 +88,118 @@ def decode_ext(ext: str, blank: str):
     return tuple(views)
 
 
-def check_sim(ctx: Ctx, m: MNTM, w: str, n: int, origin: str, native_budget: int = 0):
+# ------------------------------------------------------------------ mutable-automata option
+class calls_option:
+    """Context manager: the value `allow_mutable_automata` has while the library is called on a live
+    machine (how["calls_on"]; nothing is touched when how is None)."""
+
+    def __init__(self, how):
+        self.how = how
+
+    def __enter__(self):
+        import automata.base.config as cfg
+        self.saved = cfg.allow_mutable_automata
+        if self.how:
+            cfg.allow_mutable_automata = bool(self.how.get("calls_on", True))
+
+    def __exit__(self, *exc):
+        import automata.base.config as cfg
+        cfg.allow_mutable_automata = self.saved
+        return False
+
+
+def describe_how(how) -> str:
+    if not how:
+        return ""
+    return (f"[built under allow_mutable_automata=True from plain containers (results as {how['results']}, moves as "
+            f"{how['moves']}, rows as {how.get('rows', 'dict')}), option {'on' if how.get('calls_on', True) else 'off again'} during the calls] ")
+
+
+def build_live(ref: MNTM, how: dict) -> MNTM:
+    """The definition of the frozen machine `ref` handed to the constructor again, in PLAIN mutable
+    containers, while allow_mutable_automata is True: the library then keeps exactly these containers —
+    the lists of results stay lists (`how["results"]` = "list", the documented form, or "tuple"), each
+    result's moves a tuple of tuples (documented) or a list of lists."""
+    import collections
+
+    import automata.base.config as cfg
+    seq = list if how["results"] == "list" else tuple
+    mv = (lambda ms: [list(x) for x in ms]) if how["moves"] == "list" else (lambda ms: tuple(tuple(x) for x in ms))
+    res = (lambda q, ms: [q, mv(ms)]) if how.get("result") == "list" else (lambda q, ms: (q, mv(ms)))
+    rowt = collections.OrderedDict if how.get("rows") == "OrderedDict" else dict
+    table = {q: rowt((tuple(key), seq(res(t, ms) for (t, ms) in rs)) for key, rs in row.items())
+             for q, row in ref.transitions.items()}
+    saved = cfg.allow_mutable_automata
+    cfg.allow_mutable_automata = True
+    try:
+        return MNTM(states=set(ref.states), input_symbols=set(ref.input_symbols), tape_symbols=set(ref.tape_symbols),
+                    n_tapes=ref.n_tapes, transitions=table, initial_state=ref.initial_state,
+                    blank_symbol=ref.blank_symbol, final_states=set(ref.final_states))
+    finally:
+        cfg.allow_mutable_automata = saved
+
+
+def _plain_def(m: MNTM):
+    return (set(m.states), set(m.input_symbols), set(m.tape_symbols), m.n_tapes, m.initial_state, m.blank_symbol,
+            set(m.final_states),
+            {q: {tuple(k): [(t, tuple(tuple(x) for x in ms)) for (t, ms) in rs] for k, rs in row.items()}
+             for q, row in m.transitions.items()})
+
+
+def mutable_option_family(ctx: Ctx, count: int):
+    """Machines built while `allow_mutable_automata` is True, from plain dict / list / set containers (the
+    transition results stay LISTS, the documented way of writing them): the simulation must still agree with
+    the native run and both with the definition as built.  Judged by the same oracles as every other family
+    (check_sim: breadth-first decoding against the textbook tree, model correspondence; check_pair: verdict
+    pair), on the frozen twin.  Code that relies on what freezing produces (tuple + tuple, hashing a result,
+    `in` a frozenset of results, slicing) breaks only here."""
+    rng = ctx.rng
+    for _ in range(count):
+        ref = E.rand_mntm(rng, n_tapes=rng.choice([1, 2, 2, 3]), deterministic=False if rng.random() < 0.7 else None,
+                          names_fn=E.rand_mixed_names if rng.random() < 0.2 else None)
+        how = dict(results=rng.choice(["list", "list", "list", "tuple"]), moves=rng.choice(["tuple", "tuple", "list"]),
+                   result=rng.choice(["tuple", "tuple", "list"]), rows=rng.choice(["dict", "dict", "OrderedDict"]),
+                   calls_on=rng.random() < 0.6)
+        live = build_live(ref, how)
+        ctx.stat("mutable_results_as_" + how["results"])
+        for _ in range(2):
+            w = E.rand_input(rng, ref)
+            check_sim(ctx, live, w, rng.choice([4, 8, 16]), "mutable_option", ref=ref, how=how)
+            check_pair(ctx, live, w, rng.choice([6, 15]), "mutable_option_pair", ref=ref, how=how)
+        if _plain_def(live) != _plain_def(ref):
+            ctx.stat("mutable_option_definition_changed")  # C18's clause; here only counted
+
+
+# ------------------------------------------------------------------ mixed state names
+def mixed_names_family(ctx: Ctx, count: int):
+    """State names of MIXED, mutually unorderable types in one machine (ints, strs, tuples, frozensets — a
+    state is any hashable), nondeterministic, with dead ends: rejected inputs end with several branches stuck
+    in differently-typed states.  Anything that sorts / compares raw state names (to print them, to pick a
+    representative, to deduplicate by order) raises TypeError instead of ending with the native verdict."""
+    rng = ctx.rng
+    for _ in range(count):
+        m = E.rand_mntm(rng, n_tapes=rng.choice([1, 1, 2, 2, 3]), deterministic=False if rng.random() < 0.85 else None,
+                        names_fn=E.rand_mixed_names, max_states=rng.choice([3, 4, 5]))
+        for _ in range(3):
+            w = E.rand_input(rng, m)
+            end = check_sim(ctx, m, w, rng.choice([8, 16, 30]), "mixed_state_names")
+            if end == "raise RejectionException":
+                ctx.stat("mixed_names_simulation_rejects")
+            check_pair(ctx, m, w, rng.choice([6, 15, 40]), "mixed_state_names_pair")
+
+
+def check_sim(ctx: Ctx, m: MNTM, w: str, n: int, origin: str, native_budget: int = 0, ref: MNTM = None,
+              how: dict = None):
+    """`ref` / `how`: `m` is a LIVE machine built under the mutable-automata option (see `build_live`); the
+    calls are made on `m`, the oracle, the model and the replay use the frozen twin `ref` (the definition as
+    built)."""
     if E.skip(ctx):
         return None
     drv = ctx.driver(DRV)
+    live, m = m, (m if ref is None else ref)
     enc, st = E.enc_mntm(m)
-    ys, end = E.observe(m.read_input_as_ntm(w), n)
+    with calls_option(how):
+        ys, end = E.observe(live.read_input_as_ntm(w), n)
     wrong = []
     cfgs = []
     for y in ys:
@@ -127,8 +237,10 @@ def check_sim(ctx: Ctx, m: MNTM, w: str, n: int, origin: str, native_budget: int
     if info.get("right"):
         ctx.stat("sim_head_right_past_end")
     case = dict(kind="SIM", machine=repr(m), word=w, n=n)
+    if how:
+        case["mutable"] = how
     if wrong:
-        ctx.prop_fail(f"read_input_as_ntm on {w!r} ({n} next() calls): " + "; ".join(wrong),
+        ctx.prop_fail(describe_how(how) + f"read_input_as_ntm on {w!r} ({n} next() calls): " + "; ".join(wrong),
                       dict(case, impl=impl), None)
     elif impl != mod:
         ctx.corr_diff("ASNTM_STEPS", case, impl, mod)
@@ -137,27 +249,39 @@ def check_sim(ctx: Ctx, m: MNTM, w: str, n: int, origin: str, native_budget: int
     return end
 
 
-def check_pair(ctx: Ctx, m: MNTM, w: str, n: int, origin: str):
-    """Verdict of the native run (n calls) vs. the simulation (5n+10 calls)."""
+def check_pair(ctx: Ctx, m: MNTM, w: str, n: int, origin: str, ref: MNTM = None, how: dict = None):
+    """Verdict of the native run (n calls) vs. the simulation (5n+10 calls).  `ref` / `how`: see check_sim."""
     if E.skip(ctx):
         return None
     drv = ctx.driver(DRV)
-    nys, nend = E.observe(m.read_input_stepwise(w), n)
-    vn = E.verdict_of(nend)
+    live, m = m, (m if ref is None else ref)
     ns = 5 * n + 10
-    sys_, send = E.observe(m.read_input_as_ntm(w), ns)
+    with calls_option(how):
+        nys, nend = E.observe(live.read_input_stepwise(w), n)
+        sys_, send = E.observe(live.read_input_as_ntm(w), ns)
+    vn = E.verdict_of(nend)
     vs = E.verdict_of(send)
+    if ref is not None and vn in ("accept", "reject"):
+        # the native verdict of the live object must be the one of the definition as built
+        vr = E.verdict_of(E.observe(ref.read_input_stepwise(w), n)[1])
+        if vr != vn:
+            ctx.prop_fail(describe_how(how) + f"MNTM on {w!r}: native verdict {vn}, but {vr} for the same definition "
+                          f"built in the default configuration", dict(kind="PAIR", machine=repr(m), word=w, n=n, mutable=how), None)
+            return
     ctx.case(None)
     ctx.stat(origin)
     ctx.stat("pair_native_" + vn.split(":")[0])
     case = dict(kind="PAIR", machine=repr(m), word=w, n=n)
+    if how:
+        case["mutable"] = how
     wrong = []
     if vn in ("accept", "reject"):
         if vs != vn:
             wrong.append(f"native verdict {vn}, simulation {vs}")
         else:
-            for name, f, v in (("accepts_input", lambda: m.accepts_input(w), vn),):
-                r = E.bounded_call(f)
+            for name, f, v in (("accepts_input", lambda: live.accepts_input(w), vn),):
+                with calls_option(how):
+                    r = E.bounded_call(f)
                 if r != ("ok", v == "accept"):
                     wrong.append(f"{name} = {r} but the stepwise verdict is {v}")
     elif vn.startswith("crash"):
@@ -173,7 +297,7 @@ def check_pair(ctx: Ctx, m: MNTM, w: str, n: int, origin: str):
             deferred(ctx).append((f"MNTM on {w!r}: " + msg, case))
             return
     if wrong:
-        ctx.prop_fail(f"MNTM on {w!r}: " + "; ".join(wrong), case, None)
+        ctx.prop_fail(describe_how(how) + f"MNTM on {w!r}: " + "; ".join(wrong), case, None)
         return
     # model verdicts for the same budgets
     enc, _ = E.enc_mntm(m)
@@ -428,6 +552,9 @@ def run(ctx: Ctx):
             w = E.rand_input(rng, m)
             check_sim(ctx, m, w, rng.choice([2, 4, 8, 16, 30]), "random")
             check_pair(ctx, m, w, rng.choice([6, 15, 40]), "random_pair")
+    # 2a. mixed-type state names; machines built under the mutable-automata option
+    mixed_names_family(ctx, ctx.budget(500, 6000))
+    mutable_option_family(ctx, ctx.budget(500, 6000))
     # 2b. off the domain of the theorems: marks in the tape alphabet / in the input (open finding)
     mark_family(ctx, ctx.budget(600, 6000))
     # 3. _read_extended_tape on random strings over {0,1,#,^,_}
@@ -452,7 +579,14 @@ def replay(ctx: Ctx, path: str) -> int:
         check_read_ext(ctx, rp["ext"], "replay")
     else:
         m = eval(rp["machine"], {"MNTM": MNTM, "frozenset": frozenset})  # repr() produced by this harness
-        if kind == "MARK":
+        how = rp.get("mutable")
+        if how:
+            live = build_live(m, how)
+            if kind == "SIM":
+                check_sim(ctx, live, rp["word"], rp["n"], "replay", ref=m, how=how)
+            else:
+                check_pair(ctx, live, rp["word"], rp["n"], "replay", ref=m, how=how)
+        elif kind == "MARK":
             check_mark(ctx, m, rp["word"], rp["n"], "replay")
         elif kind == "SIM":
             check_sim(ctx, m, rp["word"], rp["n"], "replay")
